@@ -69,6 +69,14 @@ class Translator:
         self.summaries = summaries or {}        # function name -> (returns_alias_of_param_indices, writes_param_indices)
         self.returns = []
         self.private_params = {}                # private methods of the class being translated -> parameter names
+        self.cls_name = None                    # class being translated: self.m(...) resolves to the summary 'Class.m'
+
+    def summary_of(self, f, fname):
+        if self.cls_name and isinstance(f, ast.Attribute) and isinstance(f.value, ast.Name) and f.value.id == 'self':
+            q = f'{self.cls_name}.{fname}'
+            if q in self.summaries:
+                return self.summaries[q]
+        return self.summaries.get(fname)
 
     # ---------------- expressions: which variables may the value alias
     def sources(self, e):
@@ -107,15 +115,18 @@ class Translator:
                 if isinstance(v, ast.Constant) and v.value is val:
                     return self.sources(f.value) if (isinstance(f, ast.Attribute) and fname == 'astype') else [s for a in e.args[:2] for s in self.sources(a)]
                 return []
-            if fname in ALIAS_FUNCS:
+            is_module_call = (not isinstance(f, ast.Attribute)) or ast.unparse(f.value) in ('np', 'numpy', 'np.ma', 'ma', 'u', 'np.lib.stride_tricks')
+            if isinstance(f, ast.Attribute) and not is_module_call and fname in ALIAS_METHODS:
+                return self.sources(f.value)                     # x.reshape(...), x.view(), ...: the receiver
+            if fname in ALIAS_FUNCS and is_module_call:
                 out = [s for a in e.args[:1] for s in self.sources(a)]
                 if fname in ('masked_array', 'MaskedArray', 'NDData'):
                     out += [s for a in e.args[1:2] for s in self.sources(a)] + [s for k in ('mask', 'data') if k in kws for s in self.sources(kws[k])]
                 return out
             if isinstance(f, ast.Attribute) and fname in ALIAS_METHODS:
                 return self.sources(f.value)
-            if fname in self.summaries:
-                ret, _ = self.summaries[fname]
+            if self.summary_of(f, fname) is not None:
+                ret, _ = self.summary_of(f, fname)
                 args = list(e.args)
                 off = 0
                 out = []
@@ -173,8 +184,8 @@ class Translator:
                     b = base_of(f.value)
                 if b and b != 'self' and not (b.startswith('self.') and fname in ('append', 'extend', 'update', 'clear', 'pop', 'insert', 'remove', 'get', 'setdefault')):
                     out.append(('write', ctx.var(b), c.lineno))
-            if fname in self.summaries:
-                _, wr = self.summaries[fname]
+            if self.summary_of(f, fname) is not None:
+                _, wr = self.summary_of(f, fname)
                 for i in wr:
                     if i < len(c.args):
                         for s in self.sources(c.args[i]):
@@ -380,8 +391,9 @@ def is_private(name):
     return name.startswith('_') and not (name.startswith('__') and name.endswith('__'))
 
 
-def translate_function(fn, summaries):
+def translate_function(fn, summaries, cls_name=None):
     tr = Translator(summaries)
+    tr.cls_name = cls_name
     ps = params_of(fn)
     ctx = Ctx(ps)
     prog = tr.block(ctx, fn.body, arrayish_names(fn))
@@ -399,6 +411,7 @@ def translate_class(cls, summaries):
                 inputs.append(f'{m.name}::{p}')
     ctx = Ctx(inputs)
     tr = Translator(summaries)
+    tr.cls_name = cls.name
     tr.private_params = {m.name: params_of(m) for m in methods if is_private(m.name)}
 
     def body_of(m):
